@@ -758,3 +758,514 @@ Proof. vm_compute. reflexivity. Qed.
 Print Assumptions jdec_tokens_linear.
 Print Assumptions jdec_payload_linear.
 Print Assumptions jdec_each_payload.
+
+
+(* ====================================================================== *)
+(* 3. The unmarshaller: fuel                                               *)
+(* ====================================================================== *)
+
+Definition ule (r r' : ures) : Prop := r <> UFuel -> r' = r.
+
+Lemma ule_refl r : ule r r.
+Proof. intros _. reflexivity. Qed.
+
+Lemma ule_fuel r : ule UFuel r.
+Proof. intros H. exfalso. apply H. reflexivity. Qed.
+
+Lemma ule_ubind r r' k k' :
+  ule r r' -> (forall v rest, ule (k v rest) (k' v rest)) -> ule (ubind r k) (ubind r' k').
+Proof.
+  intros H Hk. destruct r as [v rest|e| |].
+  - rewrite (H ltac:(discriminate)). cbn [ubind]. apply Hk.
+  - rewrite (H ltac:(discriminate)). apply ule_refl.
+  - rewrite (H ltac:(discriminate)). apply ule_refl.
+  - apply ule_fuel.
+Qed.
+
+Section UMono.
+  Variable E : tenv.
+  Variable A : atlas.
+
+  Definition mono_all (f : nat) : Prop :=
+    (forall t cur ts, ule (unmarshal E A f t cur ts) (unmarshal E A (S f) t cur ts)) /\
+    (forall t cur ts, ule (unmarshal_bare E A f t cur ts) (unmarshal_bare E A (S f) t cur ts)) /\
+    (forall t cur ts, ule (unmarshal_kind E A f t cur ts) (unmarshal_kind E A (S f) t cur ts)) /\
+    (forall ts, ule (unmarshal_any E A f ts) (unmarshal_any E A (S f) ts)) /\
+    (forall et acc ts, ule (unmarshal_slice E A f et acc ts) (unmarshal_slice E A (S f) et acc ts)) /\
+    (forall n et acc ts, ule (unmarshal_array E A f n et acc ts) (unmarshal_array E A (S f) n et acc ts)) /\
+    (forall kt vt cur ts, ule (unmarshal_map E A f kt vt cur ts) (unmarshal_map E A (S f) kt vt cur ts)) /\
+    (forall d vt es ts, ule (unmarshal_map_entries E A f d vt es ts)
+                            (unmarshal_map_entries E A (S f) d vt es ts)) /\
+    (forall e cur ts, ule (unmarshal_entry E A f e cur ts) (unmarshal_entry E A (S f) e cur ts)) /\
+    (forall st fs len cur cnt ts, ule (unmarshal_fields E A f st fs len cur cnt ts)
+                                      (unmarshal_fields E A (S f) st fs len cur cnt ts)).
+
+  Lemma mono_zero : mono_all 0.
+  Proof. repeat split; intros; apply ule_fuel. Qed.
+
+  Lemma mono_step f : mono_all f -> mono_all (S f).
+  Proof.
+    intros (Hu & Hb & Hk & Ha & Hs & Har & Hm & Hme & He & Hf).
+    repeat split.
+    - intros t cur ts. rewrite !unmarshal_S. destruct (peel t) as [n base].
+      destruct n as [|n]; [apply Hb|].
+      destruct ts as [|[v tg] r]; [apply ule_refl|].
+      destruct v; try apply ule_refl;
+        (apply ule_ubind; [apply Hb | intros; apply ule_refl]).
+    - intros t cur ts. rewrite !unmarshal_bare_S.
+      destruct (is_unnamed_prim t); [apply ule_refl|].
+      destruct (atlas_get A t); [apply He | apply Hk].
+    - intros t cur ts. rewrite !unmarshal_kind_S.
+      destruct t; try apply ule_refl; try apply Hm; try apply Ha.
+      + destruct ts as [|[v tg] r]; [apply ule_refl|].
+        destruct v; try apply ule_refl. apply Hs.
+      + destruct ts as [|[v tg] r]; [apply ule_refl|].
+        destruct v; try apply ule_refl. apply Har.
+    - intros ts. rewrite !unmarshal_any_S.
+      destruct ts as [|[v [tg|]] r]; [apply ule_refl| |].
+      + destruct (atlas_by_tag A tg); [|apply ule_refl]. cbv zeta.
+        apply ule_ubind; [apply Hb | intros; apply ule_refl].
+      + destruct v; try apply ule_refl.
+        * apply ule_ubind; [apply Hm | intros; apply ule_refl].
+        * apply ule_ubind; [apply Hs | intros; apply ule_refl].
+    - intros et acc ts. rewrite !unmarshal_slice_S.
+      destruct ts as [|[v tg] r]; [apply ule_refl|].
+      destruct v; try apply ule_refl;
+        (apply ule_ubind; [apply Hu | intros; apply Hs]).
+    - intros n et acc ts. rewrite !unmarshal_array_S.
+      destruct ts as [|[v tg] r]; [apply ule_refl|].
+      destruct v; try apply ule_refl;
+        (destruct (Nat.leb n (length acc)); [apply ule_refl|];
+         apply ule_ubind; [apply Hu | intros; apply Har]).
+    - intros kt vt cur ts. rewrite !unmarshal_map_S.
+      destruct (key_destringer A kt) as [destr|]; [|apply ule_refl].
+      destruct ts as [|[v tg] r]; [apply ule_refl|].
+      destruct v; try apply ule_refl. cbv zeta. apply Hme.
+    - intros d vt es ts. rewrite !unmarshal_map_entries_S.
+      destruct ts as [|[v tg] r]; [apply ule_refl|].
+      destruct v; try apply ule_refl.
+      destruct (d s) as [kv|]; [|apply ule_refl].
+      destruct (existsb _ es); [apply ule_refl|].
+      apply ule_ubind; [apply Hu | intros; apply Hme].
+    - intros e cur ts. rewrite !unmarshal_entry_S.
+      destruct (ae_kind e) as [fields|kind wire|members|mode].
+      + destruct ts as [|[v tg] r]; [apply ule_refl|].
+        destruct v; try apply ule_refl. apply Hf.
+      + apply ule_ubind; [apply Hb|]. intros w rest. apply ule_refl.
+      + destruct ts as [|[v tg] r]; [apply ule_refl|].
+        destruct v; try apply ule_refl.
+        destruct ((len =? -1) || (len =? 1)); [|apply ule_refl].
+        destruct r as [|[v2 tg2] r2]; [apply ule_refl|].
+        destruct v2; try apply ule_refl.
+        destruct (find _ members) as [[nm mt]|]; [|apply ule_refl].
+        destruct (atlas_get A mt) as [me|]; [|apply ule_refl].
+        apply ule_ubind; [apply He|]. intros mv r3. apply ule_refl.
+      + destruct (strip_named (ae_type e)); try apply ule_refl. apply Hm.
+    - intros st fs len cur cnt ts. rewrite !unmarshal_fields_S.
+      destruct ts as [|[v tg] r]; [apply ule_refl|].
+      destruct v; try apply ule_refl.
+      destruct (find _ fs) as [fe|]; [|apply ule_refl].
+      destruct (fe_ignore fe).
+      * apply ule_ubind; [apply Ha | intros; apply Hf].
+      * destruct r as [|t0 r0]; [apply ule_refl|].
+        destruct (route_get E 50 st cur (fe_route fe)) as [fcur|]; [|apply ule_refl].
+        apply ule_ubind; [apply Hu|]. intros fv r'.
+        destruct (route_set E 50 st cur (fe_route fe) fv); [apply Hf | apply ule_refl].
+  Qed.
+
+  Lemma mono_all_holds f : mono_all f.
+  Proof. induction f; [apply mono_zero | apply mono_step; assumption]. Qed.
+End UMono.
+
+Theorem unmarshal_fuel_mono : forall E A f f' t cur ts r,
+  unmarshal E A f t cur ts = r -> r <> UFuel -> (f <= f')%nat -> unmarshal E A f' t cur ts = r.
+Proof.
+  intros E A f f' t cur ts r H Hr Hle. induction Hle as [|f' Hle IH]; [exact H|].
+  destruct (mono_all_holds E A f') as (Hu & _).
+  rewrite (Hu t cur ts); [exact IH | rewrite IH; exact Hr].
+Qed.
+Print Assumptions unmarshal_fuel_mono.
+
+
+(* ---------- a linear fuel bound ------------------------------------------- *)
+
+(* Calls that pass the token list on unchanged: unmarshal -> bare -> entry
+   (transform) -> bare of the wire type -> ..., and bare -> kind -> any (tagged
+   token) -> bare of the tagged entry's type -> ...  [bare_ok n t]: every such
+   chain from [unmarshal_bare _ t] ends within n visits of unmarshal_bare. *)
+Definition tagged_all (A : atlas) (p : gtype -> bool) : bool :=
+  forallb (fun e => match ae_tag e with Some _ => p (ae_type e) | None => true end) (a_entries A).
+
+Definition is_any (t : gtype) : bool :=
+  match t with GAny | GIface _ => true | _ => false end.
+
+Fixpoint bare_ok (A : atlas) (n : nat) (t : gtype) : bool :=
+  match n with
+  | O => false
+  | S m =>
+    if is_unnamed_prim t then true
+    else
+      match atlas_get A t with
+      | Some e => match ae_kind e with ETransform _ w => bare_ok A m w | _ => true end
+      | None => if is_any (strip_named t) then tagged_all A (bare_ok A m) else true
+      end
+  end.
+
+Definition entry_ok (A : atlas) (m : nat) (e : atlas_entry) : bool :=
+  match ae_kind e with ETransform _ w => bare_ok A m w | _ => true end.
+
+(* the decidable hypothesis: chains starting at a tagged entry or at a wire type
+   end within d visits *)
+Definition uranked (A : atlas) (d : nat) : bool :=
+  tagged_all A (bare_ok A d) && forallb (entry_ok A d) (a_entries A).
+
+Lemma ubind_nofuel r k :
+  r <> UFuel -> (forall v rest, r = UOk v rest -> k v rest <> UFuel) -> ubind r k <> UFuel.
+Proof. intros H Hk. destruct r; cbn [ubind]; try discriminate; [apply Hk; reflexivity | exact H]. Qed.
+
+Lemma mul_lt_step a r t : (r < t)%nat -> (a * r + a <= a * t)%nat.
+Proof. nia. Qed.
+Lemma mul_le_step a r t : (r <= t)%nat -> (a * r <= a * t)%nat.
+Proof. nia. Qed.
+
+Section UTotal.
+  Variable E : tenv.
+  Variable A : atlas.
+  Variable d : nat.
+  Hypothesis Hr : uranked A d = true.
+  Variable al : nat.
+  Hypothesis Hal : (3 * d + 6 <= al)%nat.
+
+  Lemma any_ok_d : tagged_all A (bare_ok A d) = true.
+  Proof. unfold uranked in Hr. apply andb_true_iff in Hr. apply Hr. Qed.
+
+  Lemma entry_ok_d e : In e (a_entries A) -> entry_ok A d e = true.
+  Proof.
+    unfold uranked in Hr. apply andb_true_iff in Hr. destruct Hr as [_ H].
+    rewrite forallb_forall in H. apply H.
+  Qed.
+
+  Lemma bare_ok_all t : bare_ok A (S d) t = true.
+  Proof.
+    cbn [bare_ok]. destruct (is_unnamed_prim t); [reflexivity|].
+    destruct (atlas_get A t) as [e|] eqn:G.
+    - apply atlas_get_In in G. apply entry_ok_d in G. exact G.
+    - destruct (is_any (strip_named t)); [apply any_ok_d | reflexivity].
+  Qed.
+
+  Lemma unm_consumes f t cur ts v rest :
+    unmarshal E A f t cur ts = UOk v rest -> (length rest < length ts)%nat.
+  Proof.
+    intros H. destruct (uall_holds E A f) as (Hu & _).
+    specialize (Hu t cur ts (length ts) (le_n _)). rewrite H in Hu.
+    destruct Hu as (used & -> & HP). apply P_val_nonempty in HP.
+    rewrite app_length. destruct used; [contradiction|]. cbn [length]. lia.
+  Qed.
+
+  Lemma any_consumes f ts v rest :
+    unmarshal_any E A f ts = UOk v rest -> (length rest < length ts)%nat.
+  Proof.
+    intros H. destruct (uall_holds E A f) as (_ & _ & _ & Ha & _).
+    specialize (Ha ts (length ts) (le_n _)). rewrite H in Ha.
+    destruct Ha as (used & -> & HP). apply P_val_nonempty in HP.
+    rewrite app_length. destruct used; [contradiction|]. cbn [length]. lia.
+  Qed.
+
+  Definition M : nat := (3 * d + 5)%nat.
+
+  Definition tot_all (f : nat) : Prop :=
+    (forall t cur ts, (M + al * length ts <= f)%nat -> unmarshal E A f t cur ts <> UFuel) /\
+    (forall m t cur ts, bare_ok A (S m) t = true -> (3 * m + 4 + al * length ts <= f)%nat ->
+                        unmarshal_bare E A f t cur ts <> UFuel) /\
+    (forall m t cur ts, (is_any t = true -> tagged_all A (bare_ok A m) = true) ->
+                        (3 * m + 3 + al * length ts <= f)%nat ->
+                        unmarshal_kind E A f t cur ts <> UFuel) /\
+    (forall m ts, tagged_all A (bare_ok A m) = true -> (3 * m + 2 + al * length ts <= f)%nat ->
+                  unmarshal_any E A f ts <> UFuel) /\
+    (forall et acc ts, (M + 1 + al * length ts <= f)%nat -> unmarshal_slice E A f et acc ts <> UFuel) /\
+    (forall n et acc ts, (M + 1 + al * length ts <= f)%nat -> unmarshal_array E A f n et acc ts <> UFuel) /\
+    (forall kt vt cur ts, (1 + al * length ts <= f)%nat -> unmarshal_map E A f kt vt cur ts <> UFuel) /\
+    (forall ds vt es ts, (1 + al * length ts <= f)%nat ->
+                         unmarshal_map_entries E A f ds vt es ts <> UFuel) /\
+    (forall m e cur ts, entry_ok A m e = true -> (3 * m + 3 + al * length ts <= f)%nat ->
+                        unmarshal_entry E A f e cur ts <> UFuel) /\
+    (forall st fs len cur cnt ts, (1 + al * length ts <= f)%nat ->
+                                  unmarshal_fields E A f st fs len cur cnt ts <> UFuel).
+
+  Lemma tot_zero : tot_all 0.
+  Proof. unfold tot_all, M. repeat split; intros; lia. Qed.
+
+  Lemma tagged_by_tag p tg e : tagged_all A p = true -> atlas_by_tag A tg = Some e -> p (ae_type e) = true.
+  Proof.
+    unfold tagged_all, atlas_by_tag. induction (a_entries A) as [|x r IH]; cbn [forallb find_tag]; [discriminate|].
+    intros H. apply andb_true_iff in H. destruct H as [H1 H2].
+    destruct (ae_tag x) as [t|].
+    - destruct (t =? tg); [intros G; inversion G; subst; exact H1 | apply IH; exact H2].
+    - apply IH; exact H2.
+  Qed.
+
+  Ltac nf := discriminate.
+  Ltac cons_tac := cbn [length] in *; unfold M in *; lia.
+
+  Lemma uprim_nofuel t cur ts : uprim t cur ts <> UFuel.
+  Proof.
+    unfold uprim. destruct ts as [|[v tg] r]; [nf|].
+    destruct t; destruct v; try nf;
+      match goal with |- context [if ?c then _ else _] => destruct c end; nf.
+  Qed.
+
+  Lemma reset_nofuel (ts : list token) :
+    match ts with [] => UStarved | _ :: _ => UErr (length ts) end <> UFuel.
+  Proof. destruct ts; nf. Qed.
+
+  Lemma tot_step f : tot_all f -> tot_all (S f).
+  Proof.
+    intros (Hu & Hb & Hk & Ha & Hs & Har & Hm & Hme & He & Hf).
+    repeat split.
+    - (* unmarshal *)
+      intros t cur ts Hlen. rewrite unmarshal_S. destruct (peel t) as [n base].
+      assert (Hbase : forall cur', unmarshal_bare E A f base cur' ts <> UFuel).
+      { intros cur'. apply (Hb d); [apply bare_ok_all | cons_tac]. }
+      destruct n as [|n]; [apply Hbase|].
+      destruct ts as [|[v tg] r]; [nf|].
+      destruct v; try nf; (apply ubind_nofuel; [apply Hbase | intros; nf]).
+    - (* bare *)
+      intros m t cur ts Hok Hlen. rewrite unmarshal_bare_S.
+      cbn [bare_ok] in Hok.
+      destruct (is_unnamed_prim t); [apply uprim_nofuel|].
+      destruct (atlas_get A t) as [e|].
+      + apply (He m); [exact Hok | cons_tac].
+      + apply (Hk m); [|cons_tac]. intros Hany. rewrite Hany in Hok. exact Hok.
+    - (* kind *)
+      intros m t cur ts Hok Hlen. rewrite unmarshal_kind_S.
+      destruct t; try apply uprim_nofuel; try apply reset_nofuel.
+      + destruct ts as [|[v tg] r]; [nf|].
+        destruct v; try nf. apply Hs.
+        pose proof (mul_lt_step al (length r) (length (Tok (ArrOpen len) tg :: r)) ltac:(cbn [length]; lia)).
+        cons_tac.
+      + destruct ts as [|[v tg] r]; [nf|].
+        destruct v; try nf. apply Har.
+        pose proof (mul_lt_step al (length r) (length (Tok (ArrOpen len) tg :: r)) ltac:(cbn [length]; lia)).
+        cons_tac.
+      + apply Hm. cons_tac.
+      + apply (Ha m); [apply Hok; reflexivity | cons_tac].
+      + apply (Ha m); [apply Hok; reflexivity | cons_tac].
+    - (* any *)
+      intros m ts Hok Hlen. rewrite unmarshal_any_S.
+      destruct ts as [|[v [tg|]] r]; [nf| |].
+      + destruct (atlas_by_tag A tg) as [e|] eqn:G; [|nf]. cbv zeta.
+        apply ubind_nofuel; [|intros; nf].
+        pose proof (tagged_by_tag _ _ _ Hok G) as Hbe.
+        destruct m as [|m]; [discriminate|].
+        apply (Hb m); [exact Hbe | cons_tac].
+      + destruct v; try nf.
+        * apply ubind_nofuel; [|intros; nf]. apply Hm. cons_tac.
+        * apply ubind_nofuel; [|intros; nf]. apply Hs.
+          pose proof (mul_lt_step al (length r) (length (Tok (ArrOpen len) None :: r)) ltac:(cbn [length]; lia)).
+          cons_tac.
+    - (* slice *)
+      intros et acc ts Hlen. rewrite unmarshal_slice_S.
+      destruct ts as [|[v tg] r]; [nf|].
+      destruct v; try nf;
+        (apply ubind_nofuel; [apply Hu; cons_tac|];
+         intros x r' Hx; apply unm_consumes in Hx; apply Hs;
+         pose proof (mul_lt_step al _ _ Hx); cons_tac).
+    - (* array *)
+      intros n et acc ts Hlen. rewrite unmarshal_array_S.
+      destruct ts as [|[v tg] r]; [nf|].
+      destruct v; try nf;
+        (destruct (Nat.leb n (length acc)); [nf|];
+         apply ubind_nofuel; [apply Hu; cons_tac|];
+         intros x r' Hx; apply unm_consumes in Hx; apply Har;
+         pose proof (mul_lt_step al _ _ Hx); cons_tac).
+    - (* map *)
+      intros kt vt cur ts Hlen. rewrite unmarshal_map_S.
+      destruct (key_destringer A kt) as [destr|]; [|apply reset_nofuel].
+      destruct ts as [|[v tg] r]; [nf|].
+      destruct v; try nf. cbv zeta. apply Hme.
+      pose proof (mul_lt_step al (length r) (length (Tok (MapOpen len) tg :: r)) ltac:(cbn [length]; lia)).
+      cons_tac.
+    - (* map entries *)
+      intros ds vt es ts Hlen. rewrite unmarshal_map_entries_S.
+      destruct ts as [|[v tg] r]; [nf|].
+      destruct v; try nf.
+      destruct (ds s) as [kv|]; [|nf].
+      destruct (existsb _ es); [nf|].
+      pose proof (mul_lt_step al (length r) (length (Tok (Str s) tg :: r)) ltac:(cbn [length]; lia)) as Hstep.
+      apply ubind_nofuel; [apply Hu; cons_tac|].
+      intros x r' Hx. apply unm_consumes in Hx. apply Hme.
+      pose proof (mul_lt_step al _ _ Hx). cons_tac.
+    - (* entry *)
+      intros m e cur ts Hok Hlen. rewrite unmarshal_entry_S.
+      unfold entry_ok in Hok.
+      destruct (ae_kind e) as [fields|kind wire|members|mode].
+      + destruct ts as [|[v tg] r]; [nf|].
+        destruct v; try nf. apply Hf.
+        pose proof (mul_lt_step al (length r) (length (Tok (MapOpen len) tg :: r)) ltac:(cbn [length]; lia)).
+        cons_tac.
+      + apply ubind_nofuel.
+        * destruct m as [|m]; [discriminate|]. apply (Hb m); [exact Hok | cons_tac].
+        * intros w rest _. destruct (tr_bwd kind w); nf.
+      + destruct ts as [|[v tg] r]; [nf|].
+        destruct v; try nf.
+        destruct ((len =? -1) || (len =? 1)); [|nf].
+        destruct r as [|[v2 tg2] r2]; [nf|].
+        destruct v2; try nf.
+        destruct (find _ members) as [[nm mt]|]; [|nf].
+        destruct (atlas_get A mt) as [me|] eqn:G; [|nf].
+        apply ubind_nofuel.
+        * apply (He d); [apply entry_ok_d; apply atlas_get_In in G; exact G|].
+          pose proof (mul_lt_step al (length r2) (length (Tok (MapOpen len) tg :: Tok (Str s) tg2 :: r2))
+                        ltac:(cbn [length]; lia)).
+          cons_tac.
+        * intros mv r3 _. destruct r3 as [|[v3 tg3] r4]; [nf|]. destruct v3; nf.
+      + destruct (strip_named (ae_type e)); try apply reset_nofuel. apply Hm. cons_tac.
+    - (* fields *)
+      intros st fs len cur cnt ts Hlen. rewrite unmarshal_fields_S.
+      destruct ts as [|[v tg] r]; [nf|].
+      destruct v; try nf.
+      + destruct ((0 <=? len) && negb (len =? cnt)); nf.
+      + destruct (find _ fs) as [fe|]; [|nf].
+        pose proof (mul_lt_step al (length r) (length (Tok (Str s) tg :: r)) ltac:(cbn [length]; lia)) as Hstep.
+        destruct (fe_ignore fe).
+        * apply ubind_nofuel; [apply (Ha d); [apply any_ok_d | cons_tac]|].
+          intros x r' Hx. apply any_consumes in Hx. apply Hf.
+          pose proof (mul_lt_step al _ _ Hx). cons_tac.
+        * destruct r as [|t0 r0]; [nf|].
+          destruct (route_get E 50 st cur (fe_route fe)) as [fcur|]; [|nf].
+          apply ubind_nofuel; [apply Hu; cons_tac|].
+          intros fv r' Hx. apply unm_consumes in Hx.
+          destruct (route_set E 50 st cur (fe_route fe) fv); [|nf]. apply Hf.
+          pose proof (mul_lt_step al _ _ Hx). cons_tac.
+  Qed.
+
+  Lemma tot_all_holds f : tot_all f.
+  Proof. induction f; [apply tot_zero | apply tot_step; assumption]. Qed.
+End UTotal.
+
+(* c A = 3 d + 5 and the slope is 3 d + 6, where d bounds the token-free chains
+   through transforms and tags *)
+Theorem unmarshal_total : forall E A d, uranked A d = true ->
+  forall f t cur ts, ((3 * d + 5) + (3 * d + 6) * length ts <= f)%nat ->
+  unmarshal E A f t cur ts <> UFuel.
+Proof.
+  intros E A d Hr f t cur ts Hf.
+  destruct (tot_all_holds E A d Hr (3 * d + 6)%nat (le_n _) f) as (Hu & _).
+  apply Hu. unfold M. exact Hf.
+Qed.
+Print Assumptions unmarshal_total.
+
+
+(* ---------- refutations ------------------------------------------------------ *)
+
+(* (a) [atlas_ranked] does not make the unmarshaller terminate: a tagged
+   transform entry whose wire type is interface{} sends a token carrying that
+   tag round and round (any -> entry by tag -> wire = any -> ...). *)
+Definition cex_tag_cycle : atlas := Atlas [AE (GStruct 1) (Some 5) (ETransform 8 GAny)] 0.
+
+Lemma cex_tag_cycle_ranked : atlas_ranked cex_tag_cycle.
+Proof.
+  exists (fun _ => O). intros e t e' Hin Ht Hg.
+  destruct Hin as [<-|[]]. cbn in Ht. destruct Ht as [<-|[]]. cbn in Hg. discriminate.
+Qed.
+
+Lemma cex_tag_cycle_bare : forall f cur,
+  unmarshal_bare [] cex_tag_cycle f GAny cur [Tok (Byt []) (Some 5)] = UFuel.
+Proof.
+  induction f as [f IH] using lt_wf_ind. intros cur.
+  destruct f as [|f]; [reflexivity|]. rewrite unmarshal_bare_S.
+  change (is_unnamed_prim GAny) with false. cbv iota.
+  change (atlas_get cex_tag_cycle GAny) with (@None atlas_entry). cbv iota.
+  change (strip_named GAny) with GAny.
+  destruct f as [|f]; [reflexivity|]. rewrite unmarshal_kind_S.
+  destruct f as [|f]; [reflexivity|]. rewrite unmarshal_any_S.
+  change (atlas_by_tag cex_tag_cycle 5) with (Some (AE (GStruct 1) (Some 5) (ETransform 8 GAny))).
+  cbv iota zeta. cbn [ae_type].
+  destruct f as [|f]; [reflexivity|]. rewrite unmarshal_bare_S.
+  change (is_unnamed_prim (GStruct 1)) with false. cbv iota.
+  change (atlas_get cex_tag_cycle (GStruct 1)) with (Some (AE (GStruct 1) (Some 5) (ETransform 8 GAny))).
+  cbv iota.
+  destruct f as [|f]; [reflexivity|]. rewrite unmarshal_entry_S. cbn [ae_kind].
+  rewrite IH by lia. reflexivity.
+Qed.
+
+Theorem unmarshal_total_ranked_refuted :
+  atlas_ranked cex_tag_cycle /\
+  forall f, unmarshal [] cex_tag_cycle f GAny (VAny None) [Tok (Byt []) (Some 5)] = UFuel.
+Proof.
+  split; [apply cex_tag_cycle_ranked|].
+  intros f. destruct f as [|f]; [reflexivity|]. rewrite unmarshal_S. cbn [peel].
+  apply cex_tag_cycle_bare.
+Qed.
+
+Example cex_tag_cycle_not_uranked : uranked cex_tag_cycle 100 = false.
+Proof. vm_compute. reflexivity. Qed.
+
+(* (b) the slope 4 of [unmarshal_top] is too small even with an empty atlas:
+   an untyped target takes 5 calls per nested array (any, slice, unmarshal,
+   bare, kind).  60 array heads and nothing else: the answer should be
+   "starved", it is "out of fuel". *)
+Definition empty_atlas : atlas := Atlas [] 0.
+
+Example unmarshal_top_fuel_refuted :
+  uranked empty_atlas 0 = true /\
+  unmarshal_top [] empty_atlas GAny (repeat (Tok (ArrOpen 1) None) 60) = UTFuel /\
+  unmarshal [] empty_atlas 400 GAny (VAny None) (repeat (Tok (ArrOpen 1) None) 60) = UStarved.
+Proof. vm_compute. repeat split; reflexivity. Qed.
+
+(* the hypothesis is satisfiable by an atlas with tags and transforms *)
+Example uranked_ok_atlas : uranked ok_atlas 1 = true /\ uranked ok_atlas 0 = false.
+Proof. vm_compute. split; reflexivity. Qed.
+
+(* ---------- unmarshal_top ---------------------------------------------------- *)
+
+Definition unmarshal_top_with (E : tenv) (A : atlas) (fuel : nat) (t : gtype) (ts : list token) : utop :=
+  if reset_fails A 20 t then UTBindErr
+  else
+    match unmarshal E A fuel t (zero 50 E t) ts with
+    | UOk v rest => UTDone (length ts - length rest) v
+    | UErr remaining => UTErr (S (length ts - remaining))
+    | UStarved => UTStarved
+    | UFuel => UTFuel
+    end.
+
+Lemma unmarshal_top_is_with E A t ts :
+  unmarshal_top E A t ts = unmarshal_top_with E A (50 + 4 * length ts) t ts.
+Proof. reflexivity. Qed.
+
+(* with fuel (3d+5) + (3d+6) * tokens the driver never runs out *)
+Theorem unmarshal_top_with_total : forall E A d fuel t ts, uranked A d = true ->
+  ((3 * d + 5) + (3 * d + 6) * length ts <= fuel)%nat ->
+  unmarshal_top_with E A fuel t ts <> UTFuel.
+Proof.
+  intros E A d fuel t ts Hr Hf. unfold unmarshal_top_with.
+  destruct (reset_fails A 20 t); [discriminate|].
+  pose proof (unmarshal_total E A d Hr fuel t (zero 50 E t) ts Hf) as H.
+  destruct (unmarshal E A fuel t (zero 50 E t) ts); try discriminate. contradiction.
+Qed.
+
+(* and any answer other than "out of fuel" is stable under more fuel *)
+Theorem unmarshal_top_with_mono : forall E A f f' t ts,
+  unmarshal_top_with E A f t ts <> UTFuel -> (f <= f')%nat ->
+  unmarshal_top_with E A f' t ts = unmarshal_top_with E A f t ts.
+Proof.
+  intros E A f f' t ts H Hle. unfold unmarshal_top_with in *.
+  destruct (reset_fails A 20 t); [reflexivity|].
+  destruct (unmarshal E A f t (zero 50 E t) ts) as [v rest|k| |] eqn:U.
+  - rewrite (unmarshal_fuel_mono _ _ _ _ _ _ _ _ U ltac:(discriminate) Hle). reflexivity.
+  - rewrite (unmarshal_fuel_mono _ _ _ _ _ _ _ _ U ltac:(discriminate) Hle). reflexivity.
+  - rewrite (unmarshal_fuel_mono _ _ _ _ _ _ _ _ U ltac:(discriminate) Hle). reflexivity.
+  - contradiction.
+Qed.
+
+(* [unmarshal_top] itself (fuel 50 + 4 * tokens): never out of fuel on inputs
+   short enough for its budget *)
+Corollary unmarshal_top_total_short : forall E A d t ts, uranked A d = true ->
+  ((3 * d + 5) + (3 * d + 6) * length ts <= 50 + 4 * length ts)%nat ->
+  unmarshal_top E A t ts <> UTFuel.
+Proof. intros E A d t ts Hr Hf. rewrite unmarshal_top_is_with. eapply unmarshal_top_with_total; eauto. Qed.
+
+Print Assumptions unmarshal_total_ranked_refuted.
+Print Assumptions unmarshal_top_with_total.
+Print Assumptions unmarshal_top_with_mono.
+Print Assumptions unmarshal_top_total_short.
